@@ -123,6 +123,14 @@ def pty_input():
     return PTY["in"]
 
 
+def collect_and_freeze():
+    """Full collection of what earlier cases left behind, then everything that survives (Hypothesis' and the
+    framework's own long-lived objects) is moved to the permanent generation so that the gc.collect() calls
+    inside a history only have to look at objects created by that history."""
+    gc.collect()
+    gc.freeze()
+
+
 def retire_prior():
     """Kitty widgets of earlier cases that are still referenced from somewhere (e.g. from the traceback
     of a reported violation) must not hand their z-index back to the allocator during this case."""
@@ -448,7 +456,7 @@ class Lab:
         self.force = case["force"]
         env.reset()
         urwid.CanvasCache.clear()
-        gc.collect()
+        collect_and_freeze()
         retire_prior()
         # class-level state of the code under test back to its import-time value
         W.UrwidImage._ti_free_z_indexes.clear()
@@ -904,7 +912,7 @@ def check_z_index(case, rec):
 
     env.reset()
     urwid.CanvasCache.clear()
-    gc.collect()
+    collect_and_freeze()
     retire_prior()
     name, version = case["ident"]
     env.apply(name=name, version=version)
@@ -993,16 +1001,21 @@ def check_z_index(case, rec):
 
 CLAUSES = [
     Clause("redraw_composite", check_composite, lambda: histories(any_top=False, explicit_clear=False),
-           budget={"quick": 200, "thorough": 5000}, min_per_shard=12,
+           budget={"quick": 600, "thorough": 6000}, min_per_shard=12,
+           floors={"style:kitty": 0.25, "graphics_on_screen": 0.25, "changed_while_stayed": 0.03, "ident:konsole": 0.03},
            doc="layout/pool/lifecycle histories whose top-level canvases are always CompositeCanvas"),
     Clause("redraw_any", check_composite, lambda: histories(any_top=True, explicit_clear=False),
-           budget={"quick": 120, "thorough": 3000}, min_per_shard=12,
+           budget={"quick": 300, "thorough": 3000}, min_per_shard=12,
+           floors={"noncomposite": 0.2, "style:kitty": 0.2},
            doc="as redraw_composite, plus bare SolidFill / UrwidImage top-level widgets (non-composite canvases)"),
     Clause("clear_images", check_composite, lambda: histories(any_top=False, explicit_clear=True),
-           budget={"quick": 120, "thorough": 3000}, min_per_shard=12,
+           budget={"quick": 300, "thorough": 3000}, min_per_shard=12,
+           floors={"explicit_clear": 0.2, "style:kitty": 0.2},
            doc="as redraw_composite, plus explicit clear_images()/clear_images(*widgets) and unchanged redraws"),
     Clause("lifecycle", check_composite, lambda: histories(any_top=False, explicit_clear=False, lifecycle=True),
-           budget={"quick": 100, "thorough": 2000}, min_per_shard=12,
+           budget={"quick": 200, "thorough": 2000}, min_per_shard=12,
+           floors={"foreign": 0.15},
            doc="start/stop/clear heavy histories with foreign images seeded while the screen is stopped"),
-    Clause("z_index", check_z_index, z_cases, budget={"quick": 300, "thorough": 5000}),
+    Clause("z_index", check_z_index, z_cases, budget={"quick": 300, "thorough": 5000},
+           floors={"near_end": 0.3, "exhausted": 0.08, "recycled": 0.08}),
 ]
